@@ -74,7 +74,7 @@ static void case_size(const SizeCase& c, vr::Ctx& ctx)
 {
     sim::Server srv;
     auto handler = Http::make_handler<CountHandler>();
-    auto opts    = Http::Endpoint::options().flags(Tcp::Options::ReuseAddr).maxRequestSize(c.limit).headerTimeout(std::chrono::seconds(60)).bodyTimeout(std::chrono::seconds(60));
+    auto opts    = Http::Endpoint::options().flags(Tcp::Options::ReuseAddr | Tcp::Options::NoDelay).maxRequestSize(c.limit).headerTimeout(std::chrono::seconds(60)).bodyTimeout(std::chrono::seconds(60));
     srv.start(handler, opts, 1);
     uint64_t steps = sim::settle(), execs = 0;
     const size_t total = c.limit + c.delta;
@@ -151,7 +151,7 @@ static void case_time(const TimeCase& c, vr::Ctx& ctx)
 {
     sim::Server srv;
     auto handler = Http::make_handler<CountHandler>();
-    auto opts    = Http::Endpoint::options().flags(Tcp::Options::ReuseAddr).maxRequestSize(4096).headerTimeout(std::chrono::milliseconds(c.headerMs)).bodyTimeout(std::chrono::milliseconds(c.bodyMs));
+    auto opts    = Http::Endpoint::options().flags(Tcp::Options::ReuseAddr | Tcp::Options::NoDelay).maxRequestSize(4096).headerTimeout(std::chrono::milliseconds(c.headerMs)).bodyTimeout(std::chrono::milliseconds(c.bodyMs));
     srv.start(handler, opts, 1);
     uint64_t steps = sim::settle();
     gRequests      = 0;
